@@ -50,6 +50,8 @@ type dnet struct {
 	applied bool
 	stalled bool
 	orig    byte
+	lenOld  int
+	lenNew  int
 	target  []byte
 	hdrLen  int
 	retrans [2]int // datagrams written per direction
@@ -68,6 +70,7 @@ func (n *dnet) asMnet() *mnet {
 	m.cond = sync.NewCond(&m.mu)
 	m.seen = n.seen
 	m.applied, m.orig, m.target, m.stalled = n.applied, n.orig, n.target, n.stalled
+	m.lenOld, m.lenNew = n.lenOld, n.lenNew
 	return m
 }
 
@@ -334,6 +337,11 @@ func (n *dnet) route(d, idx int, rec []byte) ([]byte, bool) {
 		}
 		n.applied = false
 		return rec, false
+	case "setlen":
+		cp, old, nw, ok := applySetLen(rec, ed.off, ed.w, ed.op)
+		n.applied = ok
+		n.lenOld, n.lenNew = old, nw
+		return cp, false
 	case "drop":
 		return nil, false
 	case "dup":
@@ -360,7 +368,8 @@ func (n *dnet) start() {
 
 var _ net.PacketConn = (*dend)(nil)
 
-func dtlcpConfigs(cf config, n *dnet) (*dtlcp.Config, *dtlcp.Config, *[]uint8, *[]uint8) {
+func dtlcpConfigs(cf config, n *dnet) (*dtlcp.Config, *dtlcp.Config, *[]uint8, *[]uint8, *bool) {
+	usedB := new(bool)
 	s := pki.Std()
 	var calerts, salerts []uint8
 	var mu sync.Mutex
@@ -387,7 +396,19 @@ func dtlcpConfigs(cf config, n *dnet) (*dtlcp.Config, *dtlcp.Config, *[]uint8, *
 	if cf.resume {
 		scfg.SessionCache = dtlcp.NewLRUSessionCache(8)
 	}
-	return ccfg, scfg, &calerts, &salerts
+	if cf.sni {
+		other := scfg.Clone()
+		other.Certificates = []dtlcp.Certificate{pair.DCert(s.Srv2Sig), pair.DCert(s.Srv2Enc)}
+		other.GetConfigForClient = nil
+		scfg.GetConfigForClient = func(chi *dtlcp.ClientHelloInfo) (*dtlcp.Config, error) {
+			if chi.ServerName == "test.example" {
+				return nil, nil
+			}
+			*usedB = true
+			return other, nil
+		}
+	}
+	return ccfg, scfg, &calerts, &salerts, usedB
 }
 
 func dclassify(err error, sent []uint8, stalled bool) string {
@@ -436,7 +457,7 @@ func runDTLCPOnce(n *dnet, ccfg, scfg *dtlcp.Config) (c, s *dtlcp.Conn, cerr, se
 
 func runDTLCP(cf config, ed edit) outcome {
 	n0 := newDNet(edit{kind: "none"})
-	ccfg, scfg, calerts, salerts := dtlcpConfigs(cf, n0)
+	ccfg, scfg, calerts, salerts, usedB := dtlcpConfigs(cf, n0)
 	if cf.resume {
 		_, _, e1, e2, _, _ := runDTLCPOnce(n0, ccfg, scfg)
 		if e1 != nil || e2 != nil {
@@ -469,6 +490,9 @@ func runDTLCP(cf config, ed edit) outcome {
 	out.net = m
 	sd := pki.Std()
 	srvCerts := certsHash([][]byte{sd.SrvSig.DER, sd.SrvEnc.DER})
+	if *usedB {
+		srvCerts = certsHash([][]byte{sd.Srv2Sig.DER, sd.Srv2Enc.DER})
+	}
 	cliCerts := "-"
 	if cf.auth || cf.ecdhe() {
 		cliCerts = certsHash([][]byte{sd.CliSig.DER, sd.CliEnc.DER})
